@@ -124,7 +124,7 @@ func (b *builder) directTask() TaskSpec {
 		if b.r.Chance(1, 3) {
 			t.B = append([]byte(nil), t.A...)
 		}
-		t.N1, t.N2, t.N3 = b.r.Intn(4), b.r.Intn(4), b.r.Intn(5)
+		t.N1, t.N2, t.N3 = b.r.Intn(4), b.r.Intn(4), b.r.Intn(64)
 		if b.r.Chance(1, 10) {
 			// more parameters than the comparison's internal scratch space
 			var x []byte
